@@ -212,6 +212,14 @@ class Mirror:
             return False
         return not any(a in self.subtree(y) for y in self.sibs(b))
 
+    def switch(self, a, b):
+        if a == b or b in self.subtree(a) or a in self.subtree(b):
+            return
+        la, lb = self.sibs(a), self.sibs(b)
+        ia, ib = la.index(a), lb.index(b)
+        la[ia], lb[ib] = b, a
+        self.parent[a], self.parent[b] = self.parent[b], self.parent[a]
+
     def move(self, a, b):
         src = self.sibs(a)
         i = src.index(a)
@@ -292,6 +300,7 @@ def _all_ops(m, n, positions, full):
         for b in T:
             ops.append("n move %d %d" % (a, b))
             ops.append("n swap %d %d" % (a, b))
+            ops.append("n switch %d %d" % (a, b))
     xs = T if full else det
     for x in xs:
         for p in T:
@@ -371,7 +380,7 @@ def _random_history(r, length):
         al = m.alive()
         det = [x for x in al if m.detached(x)]
         kind = r.choice(["new", "new", "insert", "insert", "insert", "add", "after", "before", "unlink", "move", "move",
-                         "clone", "clonetree", "clonelist", "clear", "destroy", "locate", "pos", "wild", "swap", "relink", "nparse"])
+                         "clone", "clonetree", "clonelist", "clear", "destroy", "locate", "pos", "wild", "swap", "relink", "nparse", "switch"])
         if not al or kind == "new" or (len(al) < 4 and r.random() < 0.5):
             nm = r.choice(names)
             if r.random() < 0.15:
@@ -475,6 +484,10 @@ def _random_history(r, length):
             lines.append("n nparse %d %s %s" % (x, lim, inp))
             if inp == "empty" and all(c in "fcnswebFCNSWEB" for c in lim):
                 m.clear(x)
+        elif kind == "switch":
+            a, b = pick(al), pick(al)
+            lines.append("n switch %d %d" % (a, b))
+            m.switch(a, b)
         elif kind == "relink":
             lines.append("n relink %d%s" % (pick(al), r.choice(["", " scramble", " scramble"])))
         elif kind == "locate":
@@ -608,7 +621,8 @@ class _CFG:
     driver = "drv_config"
     cxx = False
     fixed_lines = 1
-    per_process = 1
+    per_process = 25
+    link_extra = ("-Wl,--wrap=malloc",)
 
     @staticmethod
     def corpus(chk):
@@ -636,6 +650,9 @@ class _CFG:
                                   "g set 0 %s 2e %s" % (hx(rel), hx("4")), "g end"]
                         out.append(("cfgview:%d" % k, lines))
                         k += 1
+        # mpt_node_assign with the name allocation of the last element failing: nothing may be released twice or lost
+        from . import c10
+        out += c10._failsize_scripts(hx)
         return out
 
     @staticmethod
@@ -653,4 +670,48 @@ class _CFG:
         return "%s:cfg-%s" % (res["kind"], op[1] if len(op) > 1 else "?")
 
 
-extra_parts = [_CFG]
+# --------------------------------------------------------------------------- third part: trees built by the C++ parser wrapper
+class _PARSE:
+    """trees built and replaced by mpt::config_parser (mpt++/parse.cpp) through harness/drvxx_treeparse.cpp: open,
+    read, then reset + read again 1..4 times on ONE parser object; the tree clauses are stated relationally (no parser
+    model): every read gives a tree with sound links equal to the first one, the live heap bytes after every cycle are
+    those after the first read, and everything is back after the target is cleared and the parser deleted"""
+    id = "C14"
+    area = "node"
+    driver = "drvxx_treeparse"
+    cxx = True
+    fixed_lines = 1
+    link_extra = ["-fno-sanitize=vptr"]
+
+    @staticmethod
+    def corpus(chk):
+        return []
+
+    @staticmethod
+    def scripts(tier, seed, scale=1):
+        files = ["a {\nb=1\n}\nc=2\n", "o=1\n", "s {\n t {\n u=v w\n }\n}\n", "x=1\ny=2\n", "", "a {\n}\n",
+                 "srv {\n name = alpha\n opts {\n  mode = fast\n  level = 9\n }\n port = 8080\n}\nlog = file\n",
+                 "k%s = v\n" % ("n" * 30), "a {\n b {\n c {\n d {\n e = 1\n }\n }\n }\n}\n"]
+        out = []
+        for i, f in enumerate(files):
+            lines = ["n begin"]
+            for cycles in (0, 1, 2, 4):
+                lines.append("n cxxreread %s %d" % (f.encode().hex() if f else "-", cycles))
+            out.append(("reread:%d" % i, lines + ["n end"]))
+        return out
+
+    @staticmethod
+    def nontrivial(script, c_lines):
+        return True
+
+    @staticmethod
+    def tally(chk, script, c_lines):
+        d = chk.__dict__.setdefault("distribution", {})
+        d["cxxreread"] = d.get("cxxreread", 0) + sum(1 for op in script if "cxxreread" in op)
+
+    @staticmethod
+    def finding_key(script, res):
+        return "%s:cxxreread" % res["kind"]
+
+
+extra_parts = [_CFG, _PARSE]
